@@ -295,23 +295,25 @@ example : duplicateName [⟨some "a", false⟩, ⟨some "a", false⟩] = some "a
     duplicateName [⟨some "x", false⟩, ⟨some "y", false⟩, ⟨some "y", false⟩, ⟨some "x", false⟩] = some "y" := by
   decide
 
-/-- Pending markers of `ObjValue::get_idx` after the repair: of any chain of nested, unfinished
-    entries of one field — whatever the object's asserting state is at each of them — at most two
-    are let through; the next one is `InfiniteRecursionDetected`.  So a field cannot re-enter
-    itself without bound (formerly the finding `c04_self_dependent_field_under_assert_hangs`). -/
-theorem pending_reentry_bounded (m : Mark) (flags : List Bool) : admitted enter m flags ≤ 2 :=
-  admitted_le_two m flags
+/-- Pending markers of `ObjValue::get_idx` (which runs the object's assertions BEFORE it marks the
+    field): of any chain of nested, unfinished entries of one field — whatever the object's
+    asserting state is at each of them — exactly the first is let through; the next one is
+    `InfiniteRecursionDetected`.  So a field cannot re-enter itself, and no field body is evaluated
+    twice (formerly the finding `c04_self_dependent_field_under_assert_hangs`; the round-3 repair
+    admitted two entries, which evaluated a field read by an assertion twice — C03). -/
+theorem pending_reentry_bounded (m : Mark) (flags : List Bool) : admitted enter m flags ≤ 1 :=
+  admitted_le_one m flags
 
-/-- the re-entry the escape exists for still works: a field read from outside starts the
-    assertions, an assertion reads that same field (`{ assert self.a == 1, a: 1 }.a`) -/
-theorem assertion_may_read_pending_field : admitted enter .vacant [false, true] = 2 := by decide
+/-- the second entry is refused whatever the asserting state (self-dependence) -/
+theorem pending_reentry_refused (a b : Bool) (rest : List Bool) :
+    admitted enter .vacant (a :: b :: rest) = 1 := by
+  simp [admitted, enter]
 
-/-- not asserting, the second entry is already refused (ordinary self-dependence) -/
-theorem pending_reentry_refused_when_not_asserting (a : Bool) (rest : List Bool) :
-    admitted enter .vacant (a :: false :: rest) = 1 := by
-  cases a <;> simp [admitted, enter]
+/-- a first entry is always let through -/
+theorem pending_first_entry_admitted (a : Bool) : admitted enter .vacant [a] = 1 := by
+  simp [admitted, enter]
 
-/-- before the repair every entry was let through while asserting: unbounded re-entry -/
+/-- the original code let every entry through while asserting: unbounded re-entry -/
 theorem pending_orig_defect (n : Nat) :
     admitted enterOrig .vacant (List.replicate (n + 1) true) = n + 1 := admittedOrig_all n
 
